@@ -18,7 +18,8 @@ def values(tier):
     floats = [0.0, -0.0, 1.0, 1.5, -2.5, 1e300, 5e-324, float("inf"), float("-inf"), float("nan"), 255.0, 1e15]
     bools = [True, False]
     texts = ["", "a", "abc", "123", "-5", "0x10", " 7 ", "1.5", "1e3", "True", "é", "ÿ", "\x80", "\x7f", "€", "\U0001f600", "a\nb", "a\rb",
-             "tab\t", "q'\"", "back\\slash", "\\u0041", "\\n", "\x00", "\x1a", "\x1f", "x" * 255, "x" * 256, "é" * 200, "null\x00mid"]
+             "tab\t", "q'\"", "back\\slash", "\\u0041", "\\n", "\x00", "\x1a", "\x1f", "x" * 255, "x" * 256, "é" * 200, "null\x00mid",
+             "\\\\u00e9", "\\\\", "a\\\nb", "\\\x00", "C:\\Users\\u", "\\U0001F600", "\\\\\\u0041", "é\\t", "\\x41"]
     if tier == "thorough":
         texts += ["x" * 70000, "퟿", "﻿", "a b", "''", '"', "\\", "\\\\", "%s", "{}"]
     bys = [b"", b"ab", b"12", b"-3", b"0x1", b"\x00\xff", b"x" * 255, b"x" * 256, b"\n", b"a\\b", b"'"]
@@ -249,6 +250,41 @@ def _create(item):
     return out
 
 
+def _inject_cli(item):
+    """CLI --inject: the code string handed to the CLI must reach eval unchanged."""
+    from fickling import cli
+
+    from .c18 import run_cli
+
+    code, wd = item
+    out = e1.Out()
+    out.stats.inc("cli_inject_text_runs")
+    base = pickle.dumps([1, 2], protocol=3)
+    rp = {"engine": "E3", "helper": "cli --inject", "text": code}
+    for flags in ([], ["--run-last"], ["--replace-result"]):
+        rc, so, se = run_cli(["--inject", code] + flags, stdin_bytes=base)
+        if rc != 0:
+            out.stats.inc("refused")
+            continue
+        u = _EvalRecorder(io.BytesIO(so))
+        try:
+            u.load()
+        except Exception as e:  # noqa: BLE001
+            out.violate(PROP, f"C15|cli-inject|{kind_of(code)}|load-fails", f"--inject {code!r} {flags}: output does not load: {type(e).__name__}: {e}", rp, len(code))
+            continue
+        evs = [s for s in u.seen if s[1] == "eval"]
+        if len(evs) != 1 or len(evs[0][2]) != 1:
+            out.violate(PROP, f"C15|cli-inject|{kind_of(code)}|shape", f"--inject {code!r} {flags}: eval calls {evs!r}", rp, len(code))
+            continue
+        got = evs[0][2][0]
+        if got != code or type(got) is not str:
+            cls = "non-ascii" if any(ord(c) > 127 for c in code) else "ascii"
+            out.violate(PROP, f"C15|cli-inject|text-{cls}|silently-changed", f"--inject {code!r} {flags}: eval receives {got!r}", rp, len(code))
+        else:
+            out.stats.inc("delivered_equal")
+    return out
+
+
 # ---- encoders ------------------------------------------------------------------------------------
 
 
@@ -275,8 +311,9 @@ def encoder_cases():
         "BINUNICODE": [("t", "t"), (big, big), ("\U0001f600", "\U0001f600")],
         "BINUNICODE8": [("v", "v")],
         "BINFLOAT": [(2.5, 2.5), (-0.0, -0.0)],
-        "PUT": [(5, 5), (321987, 321987)], "BINPUT": [(5, 5)], "LONG_BINPUT": [(70000, 70000)],
-        "GET": [(b"5\n", 5)], "BINGET": [(5, 5)], "LONG_BINGET": [(70000, 70000)],
+        "PUT": [(5, 5), (321987, 321987), (0, 0)], "BINPUT": [(5, 5), (0, 0), (255, 255)],
+        "LONG_BINPUT": [(70000, 70000), (1, 1), (255, 255), (256, 256)],
+        "GET": [(b"5\n", 5), (b"0\n", 0)], "BINGET": [(5, 5), (255, 255)], "LONG_BINGET": [(70000, 70000), (1, 1), (256, 256)],
         "GLOBAL": [("os system", "os system")], "INST": [("m C", "m C")],
         "PROTO": [(2, 2), (5, 5)], "FRAME": [(10, 10)], "PERSID": [("pid", "pid")],
     }
@@ -362,6 +399,8 @@ def check(tier):
     texts = [v for k, v in vals if k == "text"] + ["__import__('os').getpid()", "1+1", "'q'", "\"dq\""]
     with e3.Scratch("c15") as wd:
         e3.pmap(_create, [(t, wd) for t in texts], rep, chunksize=4)
+    with e3.Scratch("c15i") as wd:
+        e3.pmap(_inject_cli, [(repr(t), wd) for t in texts if "\x00" not in t] + [("1+1", wd), ("print('é\\t')", wd)], rep, chunksize=4)
     cases = encoder_cases()
     missing = sorted(set(fk.OPCODES_BY_NAME) - set(cases))
     if missing:
